@@ -93,19 +93,40 @@ def birth_rules(ctx, prog):
 def leaf_contract(ctx, prog):
     """X0: handle_cloexec(handle, enable) = F_GETFD, set/clear exactly FD_CLOEXEC under `enable`, F_SETFD on the same descriptor"""
     F = prog.fn("handle_cloexec")
-    fc = [n for n in F.calls("fcntl")]
-    cmds = [const_of(prog, n["c"][2]) for n in fc]
-    same_fd = all(expr_str(strip(n["c"][1])) == F.params[0]["name"] for n in fc)
-    sel = None
-    for n in F.walk():
-        if n["k"] == "ConditionalOperator" and expr_str(strip(n["c"][0])) == F.params[1]["name"]:
-            a, b = strip(n["c"][1]), strip(n["c"][2])
-            if a["k"] == "BinaryOperator" and a["op"] == "|" and b["k"] == "BinaryOperator" and b["op"] == "&":
-                sel = (const_of(prog, a["c"][1]), const_of(prog, b["c"][1]))
-    setarg = expr_str(strip(fc[1]["c"][3])) if len(fc) > 1 and len(fc[1]["c"]) > 3 else None
+    # evaluated, not pattern-matched: the helper is interpreted for every current flag word 0..3 and both requests, with fcntl
+    # replaced by a model that answers F_GETFD with that word and records what F_SETFD writes, and to which descriptor
+    problems = []
+    ncase = 0
+    for cur in (0, 1, 2, 3):
+        for enable in (0, 1):
+            log = []
+
+            def m_fcntl(I_, fn, n, args, st, cur=cur, log=log):
+                cmd = next(iter(args[1])) if len(args[1]) == 1 else None
+                log.append((cmd, args[0], args[2] if len(args) > 2 else None))
+                if cmd == 1:
+                    return [(st, fs(cur))]
+                return [(st, fs(0))]
+            I0 = new_interp(prog, overrides={}, extra_models={"fcntl": m_fcntl})
+            I0.overrides.pop("handle_cloexec", None)
+            st0 = State()
+            st0.mon["nofail"] = True
+            hp, ep = [("v", F.gdid(p_["did"])) for p_ in F.params[:2]]
+            st0.mem[hp] = fs(("fd", "given", 0, 0))
+            st0.mem[ep] = fs(enable)
+            r0 = I0.run(F, [st0])
+            ctx.stats("E-ABS", I0.stats)
+            ncase += 1
+            want = (cur | 1) if enable else (cur & ~1)
+            gets = [x for x in log if x[0] == 1]
+            sets = [x for x in log if x[0] == 2]
+            ok = len(gets) == 1 and len(sets) == 1 and log.index(gets[0]) < log.index(sets[0]) and \
+                all(x[1] == fs(("fd", "given", 0, 0)) for x in log) and sets[0][2] == fs(want) and all(rv == fs(0) for s_, rv in r0.exits)
+            if not ok:
+                problems.append({"flags": cur, "enable": enable, "calls": [(c, show(a)[:30], show(v)[:20] if v is not None else None) for c, a, v in log][:4]})
     ctx.ob("C11.X0", "handle_cloexec", "the flag helper reads the descriptor flags, sets FD_CLOEXEC when enabling and clears exactly "
-           "FD_CLOEXEC when disabling, and writes them back to the same descriptor", cmds == [1, 2] and same_fd and sel == (1, -2),
-           {"fcntl_cmds": cmds, "set_mask": sel, "written": setarg})
+           "FD_CLOEXEC when disabling (every other bit kept), and writes them back to the same descriptor - for each flag word 0..3 and "
+           "both requests", not problems and ncase == 8, {"cases": ncase, "problems": problems[:3]}, nontrivial=True)
     # failure of either fcntl is reported
     I = new_interp(prog, overrides={})
     I.overrides.pop("handle_cloexec", None)
